@@ -19,8 +19,10 @@ Definition val_of_pres (r : pres) : val :=
   | PFuel => err eFuel
   end.
 
-Definition parse_pil (text : pstr) : val := val_of_pres (parse_string pil_grammar text).
-Definition parse_seesaw (text : pstr) : val := val_of_pres (parse_string seesaw_grammar text).
+Definition parse_pil_fuel (fuel : nat) (text : pstr) : val := val_of_pres (parse_string_fuel pil_grammar fuel text).
+Definition parse_seesaw_fuel (fuel : nat) (text : pstr) : val := val_of_pres (parse_string_fuel seesaw_grammar fuel text).
+Definition parse_pil (text : pstr) : val := parse_pil_fuel (default_fuel pil_grammar text) text.
+Definition parse_seesaw (text : pstr) : val := parse_seesaw_fuel (default_fuel seesaw_grammar text) text.
 
 Definition dispatch_peg (op : pstr) (a : val) : option val :=
   if op_is op "parse_pil" then Some (or_bad (do s <- as_str a; Some (parse_pil s)))
